@@ -317,3 +317,104 @@ package router
 //@   ensures [C08:failed-refresh-not-stored] fwdErr != nil ==> nStore == 0
 //@   callsite forward: [C10:prefetch-same-upstream] arg2 == u && arg3 == q
 //@   callsite Store: [C19:store-refreshed] arg1 == q
+
+// ---- rule.go / router.go start-up (C10) -------------------------------------------------------
+
+// loadRule: the rule mirrors its configuration; a tag that names no loaded domain set or upstream is an
+// error, whatever else the rule says.
+//@ func (r *router) loadRule(cfg *RuleConfig) (ru *rule, err error)
+//@   props C10
+//@   requires r != nil && cfg != nil
+//@   modifies nothing
+//@   ensures [C10:unknown-domain-set-rejected] len(cfg.Domain) > 0 && (!has(r.domainSets, cfg.Domain) || r.domainSets[cfg.Domain] == nil) ==> err != nil
+//@   ensures [C10:unknown-upstream-rejected] len(cfg.Forward) > 0 && (!has(r.upstreams, cfg.Forward) || r.upstreams[cfg.Forward] == nil) ==> err != nil
+//@   ensures err != nil ==> ru == nil
+//@   ensures [C10:rule-mirrors-config] err == nil ==> ru != nil && fresh(ru) && ru.reject == cfg.Reject
+//@             && (len(cfg.Domain) > 0 ? ru.matcher == r.domainSets[cfg.Domain] && ru.reverse == cfg.Reverse : ru.matcher == nil && !ru.reverse)
+//@             && (len(cfg.Forward) > 0 ? ru.upstream == r.upstreams[cfg.Forward] : ru.upstream == nil)
+
+//@ func makeTlsConfig(cfg *TlsConfig, requireCert bool) (c *tls.Config, err error)
+//@   trusted
+//@   modifies nothing
+//@ func (r *router) subLoggerForUpstream(tag string) (l *zerolog.Logger)
+//@   trusted
+//@   modifies nothing
+//@   ensures l != nil
+//@ func (r *router) subLogger(modName string) (l *zerolog.Logger)
+//@   trusted
+//@   modifies nothing
+//@   ensures l != nil
+//@ func controlSocket(opt SocketConfig) (f controlFunc)
+//@   trusted
+//@   modifies nothing
+//@ func regMetrics(r prometheus.Registerer, cs []prometheus.Collector) (err error)
+//@   trusted
+//@   modifies nothing
+//@ func wrapUpstream(tag string, u upstream.Upstream) (w *upstreamWrapper)
+//@   trusted
+//@   modifies nothing
+//@   ensures w != nil && fresh(w) && w.u == u && w.tag == tag
+
+// initUpstream: an upstream is registered under its tag only; a missing or repeated tag is an error and
+// registers nothing.
+//@ func (r *router) initUpstream(cfg *UpstreamConfig) (err error)
+//@   props C10
+//@   requires r != nil && cfg != nil && r.upstreams != nil
+//@   modifies obj(r.upstreams)
+//@   ensures [C10:missing-tag-rejected] len(cfg.Tag) == 0 ==> err != nil
+//@   ensures [C10:dup-tag-rejected] old(has(r.upstreams, cfg.Tag)) ==> err != nil
+//@   ensures [C10:registered-under-tag] err == nil ==> has(r.upstreams, cfg.Tag) && r.upstreams[cfg.Tag] != nil && r.upstreams[cfg.Tag].u != nil
+//@   ensures [C10:others-kept] forallkey(k, r.upstreams, (err != nil || k != keyOf(r.upstreams, cfg.Tag)) ==> has(r.upstreams, k) == old(has(r.upstreams, k)) && r.upstreams[k] == old(r.upstreams[k]))
+
+// loadDomainSet: a domain set is registered under its tag only; a missing or repeated tag is an error.
+//@ func (r *router) loadDomainSet(cfg *DomainSetConfig) (err error)
+//@   props C10
+//@   requires r != nil && cfg != nil && r.domainSets != nil && r.logger != nil
+//@   modifies obj(r.domainSets), pkgheaps(domain_matcher)
+//@   ensures [C10:missing-tag-rejected] len(cfg.Tag) == 0 ==> err != nil
+//@   ensures [C10:dup-tag-rejected] old(has(r.domainSets, cfg.Tag)) ==> err != nil
+//@   ensures [C10:registered-under-tag] err == nil ==> has(r.domainSets, cfg.Tag) && r.domainSets[cfg.Tag] != nil
+//@   ensures [C10:others-kept] forallkey(k, r.domainSets, (err != nil || k != keyOf(r.domainSets, cfg.Tag)) ==> has(r.domainSets, k) == old(has(r.domainSets, k)) && r.domainSets[k] == old(r.domainSets[k]))
+//@   loop 1:
+//@     modifies pkgheaps(domain_matcher)
+
+//@ spec func closersOK(r *router) bool = forall(k, 0, len(r.serverClosers), r.serverClosers[k] != nil)
+
+//@ func newMetricsReg() (reg *prometheus.Registry)
+//@   trusted
+//@   modifies nothing
+//@ func initResourceLimiter(cfg LimiterConfig) (l *resourceLimiter)
+//@   trusted
+//@   modifies nothing
+//@   ensures l != nil
+//@ func (r *router) initCache(cfg *CacheConfig) (c *cacheCtl, err error)
+//@   trusted
+//@   modifies nothing
+//@   ensures err == nil ==> c != nil && c.logger != nil
+//@ func (r *router) startServer(cfg *ServerConfig) (closer func(), err error)
+//@   trusted
+//@   modifies nothing
+//@   ensures (err == nil) == (closer != nil)
+// close runs closeImpl at most once (sync.Once); closeImpl calls every registered closer
+//@ func (r *router) close(err error)
+//@   trusted
+//@   requires [C18:no-nil-closer] r != nil && closersOK(r)
+//@   modifies *
+
+// run: start-up keeps every configured rule, in order, as configured (C10); on a start-up error nothing is
+// returned and what was started is closed without calling a nil closer (C18).
+//@ func run(ctx context.Context, cfg *Config) (rr *router, err error)
+//@   props C10 C18
+//@   requires cfg != nil && ctx != nil
+//@   modifies *
+//@   ensures [C10:every-rule-kept-in-order] err == nil ==> rr != nil && len(rr.rules) == len(cfg.Rules)
+//@   ensures [C18:startup-error-returns-no-router] err != nil ==> rr == nil
+//@   loop 1:
+//@     modifies obj(r.upstreams)
+//@   loop 2:
+//@     modifies obj(r.domainSets), pkgheaps(domain_matcher)
+//@   loop 3:
+//@     invariant len(r.rules) == rangeindex_3 + 1
+//@   loop 4:
+//@     modifies r.serverClosers, obj(r.serverClosers)
+//@     invariant closersOK(r) && (loopFresh(r.serverClosers) || sameObj(r.serverClosers, loopOld(r.serverClosers)))
